@@ -206,10 +206,26 @@ func c13EndToEnd(r *hx.Run, rnd *rand.Rand, n int) {
 		min    string
 		minLen int
 		filter string
+		store  bool // tiny LRU over a store: entries are evicted and reloaded from their persisted record
 	}
-	specs := []srvSpec{{"", 1024, ""}, {"100", 100, ""}, {"2kb", 2000, "text|vnd\\.custom"}}
+	type keyInfo struct {
+		uri       string
+		size      int
+		ct, kind  string
+		cacheable bool
+		rawOrig   []byte
+		fetch     int64
+	}
+	specs := []srvSpec{{"", 1024, "", false}, {"100", 100, "", false}, {"2kb", 2000, "text|vnd\\.custom", false}, {"2kb", 2000, "text|vnd\\.custom", true}, {"", 1024, "", true}}
 	for si, sp := range specs {
-		w := newSimpleWorld(r, hx.SimpleCfg{CacheName: fmt.Sprintf("c13_%d", si), MinLength: sp.min, Filter: sp.filter}, 1, true)
+		sc := hx.SimpleCfg{CacheName: fmt.Sprintf("c13_%d", si), MinLength: sp.min, Filter: sp.filter}
+		if sp.store {
+			sc.CacheSize = 8
+			sc.Store = fmt.Sprintf("mem://c13/%d/%d", r.Seed, si)
+			hx.NewMemStore(sc.Store)
+		}
+		w := newSimpleWorld(r, sc, 1, true)
+		var keys []*keyInfo
 		var size int
 		var ct, kind string
 		var cacheable bool
@@ -233,11 +249,12 @@ func c13EndToEnd(r *hx.Run, rnd *rand.Rand, n int) {
 		for i := 0; i < n && !r.TooMany(); i++ {
 			size = sp.minLen + []int{-1, 0, 1, 500, 5000}[rnd.Intn(5)]
 			ct = []string{"text/html", "application/json", "image/png", "application/vnd.custom"}[rnd.Intn(4)]
-			kind = []string{"text", "runs"}[rnd.Intn(2)]
+			kind = []string{"text", "runs", "rand"}[rnd.Intn(3)]
 			cacheable = rnd.Intn(3) != 0
 			uri := fmt.Sprintf("/c13/%d/%d", si, i)
 			typeMatch := filter.MatchString(ct)
-			var rawOrig []byte
+			ki := &keyInfo{uri: uri, size: size, ct: ct, kind: kind, cacheable: cacheable}
+			keys = append(keys, ki)
 			if cacheable && size > sp.minLen && typeMatch && i%3 == 0 {
 				// a burst on the cold key: the response is compressed once when stored, not per coalesced request
 				gate := make(chan struct{})
@@ -271,7 +288,10 @@ func c13EndToEnd(r *hx.Run, rnd *rand.Rand, n int) {
 					r.Violate("recompressed_per_request", map[string]string{"path": "coalesced_waiters"}, fmt.Sprintf("a burst of 5 on a cold compressible key ran the compressors gzip x%d, br x%d (expected once each, when stored)", gz1-gz0, br1-br0), briefs(results), map[string]interface{}{"raw_len": size, "content_type": ct, "held_fetches": held.Load()})
 				}
 			}
-			for step := 0; step < 4; step++ {
+			probe := func(ki *keyInfo, step int, phase string) bool {
+				// the origin answers a (re)fetch of this key with the key's own parameters
+				size, ct, kind, cacheable = ki.size, ki.ct, ki.kind, ki.cacheable
+				uri, typeMatch := ki.uri, filter.MatchString(ki.ct)
 				accept := c13Accepts[rnd.Intn(len(c13Accepts))]
 				gz0, br0 := compress.VerifCounts()
 				hdr := http.Header{}
@@ -280,25 +300,25 @@ func c13EndToEnd(r *hx.Run, rnd *rand.Rand, n int) {
 				}
 				res := w.Cl.Do(hx.Req{Addr: w.Addr, Host: "c13.example", URI: uri, Header: hdr})
 				gz1, br1 := compress.VerifCounts()
-				cs := map[string]interface{}{"server_min_length": sp.min, "filter": sp.filter, "raw_len": size, "content_type": ct, "cacheable": cacheable, "step": step, "accept": accept, "label": res.Label}
+				cs := map[string]interface{}{"server_min_length": sp.min, "filter": sp.filter, "raw_len": size, "content_type": ct, "cacheable": cacheable, "step": step, "accept": accept, "label": res.Label, "phase": phase, "store_backed_tiny_cache": sp.store}
 				r.Eval(1)
 				r.Add("e2e_requests", 1)
 				if res.Err != nil || res.Status != 200 || res.DecErr != nil {
 					r.Violate("e2e_request_failed", nil, "request failed", res.Brief(), cs)
-					break
+					return false
 				}
 				f := w.Farm.ByID(res.FetchID)
 				if f == nil {
 					r.Violate("e2e_unknown_fetch", nil, "no fetch id", res.Brief(), cs)
-					break
+					return false
 				}
 				orig := f.Reply.Body
-				if step == 0 {
-					rawOrig = orig
+				if ki.rawOrig == nil || f.ID != ki.fetch {
+					ki.rawOrig, ki.fetch = orig, f.ID
 				}
 				if !bytes.Equal(res.Decoded, orig) {
 					r.Violate("negotiated_body_wrong", nil, "decoded body differs from the upstream body", res.Brief(), cs)
-					break
+					return false
 				}
 				compressible := size > sp.minLen && typeMatch
 				storedVariants := cacheable && compressible // compressed when stored, raw dropped
@@ -318,39 +338,58 @@ func c13EndToEnd(r *hx.Run, rnd *rand.Rand, n int) {
 						params["accept_class"] = "token_containing_gzip"
 					}
 					r.Violate("negotiation_differs_from_table", params, fmt.Sprintf("server sent Content-Encoding %q, table says %v", res.CE, keysOf(want)), res.Brief(), cs)
-					break
+					return false
 				}
 				if res.Label == "hit" && storedVariants {
 					r.Add("e2e_hits_on_compressible_entries", 1)
 					if (res.CE == "gzip" || res.CE == "br") && (gz1 != gz0 || br1 != br0) {
 						r.Violate("recompressed_per_request", nil, fmt.Sprintf("hit on a stored compressible entry invoked the compressor (gzip +%d, br +%d)", gz1-gz0, br1-br0), res.Brief(), cs)
-						break
+						return false
 					}
 					if res.CE == "gzip" {
-						exp, _ := best.Gzip(rawOrig)
+						exp, _ := best.Gzip(ki.rawOrig)
 						gzN, brN := compress.VerifCounts()
 						_, _ = gzN, brN
 						if !bytes.Equal(res.Raw, exp) {
 							r.Violate("stored_variant_not_best_compression", nil, "the stored gzip variant differs from the best-compression profile's output", res.Brief(), cs)
-							break
+							return false
 						}
 						r.Add("e2e_best_compression_profile_checks", 1)
 					}
 					if res.CE == "br" {
-						exp, _ := best.Brotli(rawOrig)
+						exp, _ := best.Brotli(ki.rawOrig)
 						if !bytes.Equal(res.Raw, exp) {
 							r.Violate("stored_variant_not_best_compression", nil, "the stored br variant differs from the best-compression profile's output", res.Brief(), cs)
-							break
+							return false
 						}
 						r.Add("e2e_best_compression_profile_checks", 1)
 					}
 				}
-				if step == 0 && cacheable && compressible {
+				if phase == "first" && step == 0 && cacheable && compressible {
 					if gz1-gz0 != 1 || br1-br0 != 1 {
 						// fetching request: exactly one gzip and one br when stored (the fetcher is then served a stored variant)
 						r.Add("e2e_store_time_compressions_not_1_1", 1)
 					}
 				}
+				return true
+			}
+			for step := 0; step < 4; step++ {
+				if !probe(ki, step, "first") {
+					break
+				}
+			}
+			if sp.store && i%4 == 3 {
+				// revisit earlier keys: with 8 resident entries they come back from their persisted records
+				for n := 0; n < 6; n++ {
+					old := keys[rnd.Intn(len(keys))]
+					if st, ok := entryState(w.Cfg.Caches[0].Name, "GET c13.example "+old.uri); ok && !st.Exists {
+						r.Add("e2e_revisits_of_evicted_keys", 1)
+					}
+					if !probe(old, 1, "revisit") {
+						break
+					}
+				}
+				size, ct, kind, cacheable = ki.size, ki.ct, ki.kind, ki.cacheable
 			}
 			r.Distinct(fmt.Sprintf("e2e %d %d %s %v", si, size, ct, cacheable))
 		}
@@ -359,7 +398,7 @@ func c13EndToEnd(r *hx.Run, rnd *rand.Rand, n int) {
 }
 
 func c13(r *hx.Run) {
-	r.Rule = "exhaustive table at the Fill level: accept (14 values incl. tokens containing 'gzip') x stored subset of raw/gzip/br (7) x raw size {min-1,min,min+1,min+4000} x min {1024,100} x filter {default,custom} x 6 content types x {direct, after Cacheable()}, N random bodies per cell, against the table of the statement/docs (where raw and visible lengths straddle the threshold both outcomes are accepted); then end-to-end through servers with default/configured thresholds and filters: 4 requests per key with random Accept-Encoding, compressor call counters around every hit, stored variants compared with the best-compression profile's output. Non-trivial/distinct = table cell / e2e key class."
+	r.Rule = "exhaustive table at the Fill level: accept (14 values incl. tokens containing 'gzip') x stored subset of raw/gzip/br (7) x raw size {min-1,min,min+1,min+4000} x min {1024,100} x filter {default,custom} x 6 content types x {direct, after Cacheable()}, N random bodies per cell, against the table of the statement/docs (where raw and visible lengths straddle the threshold both outcomes are accepted); then end-to-end through servers with default/configured thresholds and filters (two of them with an LRU of 8 entries over a store, earlier keys revisited after eviction so that they are served from their reloaded records): text, repetitive and incompressible bodies, 4 requests per key with random Accept-Encoding, compressor call counters around every hit, stored variants compared with the best-compression profile's output. Non-trivial/distinct = table cell / e2e key class."
 	r.Assume = []string{"Accept-Encoding is a plain list of codings (no q-values)", "gzip/brotli encoders are deterministic (same level => same bytes)"}
 	rnd := rand.New(rand.NewSource(r.Seed))
 	c13Table(r, rnd, r.Pick(1, 20))
